@@ -34,7 +34,7 @@ def setup(ctx):
 
 def w_cross(ctx, rng, i):
     d = 2 + i % 2
-    kinds = tx.kinds(d)
+    kinds = tx.kinds(d) + tx.EXTRA_HOMOG
     kind = kinds[(i // 2) % len(kinds)]
     cls = gen.SHAPE_CLASSES[(i // (2 * len(kinds))) % 8]
     nlm = int(rng.integers(0, 4))
@@ -49,6 +49,12 @@ def w_cross(ctx, rng, i):
         lmc.append(lc)
         s.landmarks["g%d" % g] = gen.shape(rng, lc, d=d, n=n_lm if equal_sizes else int(rng.integers(3, 8)),
                                            scale=0.55 * tx.BOX, centred=True)
+    if nlm and rng.random() < 0.3:
+        # a landmark group that carries landmarks of its own
+        g0 = s.landmarks["g0"]
+        g0.landmarks["inner"] = gen.shape(rng, gen.SHAPE_CLASSES[rng.integers(0, 8)], d=d, n=int(rng.integers(3, 6)), scale=0.55 * tx.BOX, centred=True)
+        s.landmarks["g0"] = g0
+        ctx.bump("cases_with_nested_landmarks")
     if rng.random() < 0.3:
         s.points = gen.hostile_array(rng, s.points)
     held = [(k, v) for k, v in s.landmarks.items()] if nlm else []
